@@ -1,6 +1,9 @@
 package props
 
 import (
+	"sort"
+
+	gethabi "github.com/ethereum/go-ethereum/accounts/abi"
 	"encoding/hex"
 	"math/big"
 
@@ -42,3 +45,9 @@ func packBech32(method string, args ...interface{}) string {
 }
 
 func bigU(u uint64) *big.Int { return new(big.Int).SetUint64(u) }
+
+func cpcabiErc20() gethabi.ABI   { return cpcabi.Erc20CpcInfo.ABI }
+func cpcabiStaking() gethabi.ABI { return cpcabi.StakingCpcInfo.ABI }
+func cpcabiBech32() gethabi.ABI  { return cpcabi.Bech32CpcInfo.ABI }
+
+func sortStrings(s []string) { sort.Strings(s) }
